@@ -63,6 +63,48 @@ def state(s):
     return (b"".join(struct.pack("7dI", p.x, p.y, p.z, p.vx, p.vy, p.vz, p.m, p.hash.value) for p in s.particles), s.N, struct.pack("3d", s.t, s.dt, s.dt_last_done))
 
 
+def getsim_close(res, tmpdir):
+    """Simulationarchive.getSimulation(t, mode='close') with the default keep_unsynchronized = 1: the returned simulation was integrated from
+    the nearest snapshot and synchronised for output only; continued, it reproduces the uninterrupted run bit for bit (WHFast / SABA with
+    safe_mode = 0, where the synchronisation is deferred)"""
+    cfgs = [("whfast", {"safe_mode": 0}), ("whfast", {"safe_mode": 0, "corrector": 11}), ("whfast", {"safe_mode": 0, "coordinates": "democraticheliocentric"}),
+            ("saba", {"safe_mode": 0}), ("saba", {"safe_mode": 0, "type": "cl4"}), ("saba", {"safe_mode": 0, "type": "2"}),
+            ("whfast", {"safe_mode": 1}), ("saba", {"safe_mode": 1})]
+
+    def mk(name, opts):
+        sim = rebound.Simulation()
+        sim.add(m=1.0)
+        sim.add(m=1e-3, a=1.0, e=0.1, f=0.4)
+        sim.add(m=3e-4, a=1.8, e=0.05, inc=0.1, f=2.0)
+        sim.move_to_com()
+        sim.integrator = name
+        for k, v in opts.items():
+            setattr(getattr(sim, "ri_" + name), k, v)
+        sim.dt = 0.02
+        return sim
+    for name, opts in cfgs:
+        for mode in ("close", "snapshot"):
+            ref = mk(name, opts)
+            ref.integrate(60.2 * ref.dt, exact_finish_time=0)
+            ref.synchronize()
+            fn = os.path.join(tmpdir, "gc_%d.bin" % os.getpid())
+            if os.path.exists(fn):
+                os.remove(fn)
+            a = mk(name, opts)
+            a.save_to_file(fn, step=10)
+            a.integrate(30.2 * a.dt, exact_finish_time=0)
+            del a
+            sa = rebound.Simulationarchive(fn)
+            c = sa.getSimulation(25.2 * 0.02, mode=mode)
+            del sa
+            os.remove(fn)
+            c.integrate(60.2 * c.dt, exact_finish_time=0)
+            c.synchronize()
+            ok = state(c) == state(ref)
+            res.append({"cfg": {"integ": name, "opts": opts, "getSimulation": mode}, "savepoints": 1,
+                        "bad": [] if ok else [{"k": 19, "route": "getSimulation(mode='%s')" % mode, "after": 40}], "nbad": 0 if ok else 1})
+
+
 def main():
     out, seed, tier, layout = sys.argv[1], int(sys.argv[2]), sys.argv[3], json.load(open(sys.argv[4]))
     rng = random.Random(seed)
@@ -113,6 +155,7 @@ def main():
                         bad.append({"k": k, "route": rt, "after": j + 1, "pending_removal": pending, "order_only": order_only, "same_particles_to_rounding": near})
                         break
         res.append({"cfg": cfg, "savepoints": nsteps, "bad": bad[:10], "nbad": len(bad)})
+    getsim_close(res, tmpdir)
     json.dump(res, open(out, "w"))
 
 
